@@ -278,7 +278,8 @@ def insert_canaries(text, pm):
     return res, [lab for _, lab in pos_list]
 
 
-def run_unit(unit, canary=False, keep=True):
+def run_unit(unit, canary=False, keep=True, outdir=None):
+    OUT = outdir or globals()["OUT"]      # per-property directory: checks of different properties may run at the same time
     r = UnitResult(unit)
     t0 = time.time()
     degrade = set()
